@@ -234,8 +234,36 @@ pub fn check_one(model: &ZoneModel, tl: &Timeline, zr: TimeZoneRef<'_>, f: &Fiel
     // evaluated for the searched year): only the error kind is asserted there. Everywhere else the search must succeed and equal the model.
     let maxoff = offsets(z).iter().map(|o| (*o as i128).abs()).max().unwrap_or(0);
     let rule_year_out = matches!(z.trailer, MTrailer::Alt(_)) && !((i32::MIN as i64 + 2)..=(i32::MAX as i64 - 2)).contains(&(f.y as i64));
-    let far = l < cal::min_unix() as i128 + 2 * maxoff + 2 || l > cal::max_unix() as i128 - 2 * maxoff - 2 || rule_year_out;
+    let is_rule_zone = matches!(z.trailer, MTrailer::Alt(_));
+    let near_end = l < cal::min_unix() as i128 + 2 * maxoff + 2 || l > cal::max_unix() as i128 - 2 * maxoff - 2;
+    // zones without a DST rule are exact up to the very ends of the range: the search may fail only when an instant it has to return
+    // (a valid result, or either half of a gap entry) is itself not representable (decided below from the model's answer)
+    let far = (is_rule_zone && near_end) || rule_year_out;
     let exp = if far { None } else { model_find(model, tl, l) };
+    // non-rule zone near a range end: is every instant of the model's answer representable?
+    let exp = if !is_rule_zone && near_end {
+        match exp {
+            Some(e) => {
+                let lo = cal::min_unix() as i128;
+                let hi = cal::max_unix() as i128;
+                let ok = e.iter().all(|x| match x {
+                    Entry::Normal { u, .. } => (*u as i128) >= lo && (*u as i128) <= hi,
+                    Entry::Skipped { at, before, after } => [model.ltt(*before).off, model.ltt(*after).off].iter().all(|o| {
+                        let v = *at as i128 + *o as i128;
+                        v >= lo && v <= hi
+                    }),
+                });
+                if ok {
+                    Some(e)
+                } else {
+                    None
+                }
+            }
+            None => None,
+        }
+    } else {
+        exp
+    };
     let desc = || format!("zone {{trans: {:?}, types: {:?}, leaps: {:?}, trailer: {:?}}} local {:04}-{:02}-{:02}T{:02}:{:02}:{:02}", z.trans, z.types, z.leaps, z.trailer, f.y, f.mo, f.d, f.h, f.mi, f.s);
     let list: Vec<FoundDateTimeKind> = match got {
         Ok(l) => l.clone().into_inner(),
@@ -513,15 +541,83 @@ pub const KF_TIE_GAP: &str = "KF-C06-TIEGAP";
 pub fn check_search(c: &SearchCase, focus: Focus, st: &mut Stats) -> Result<(), String> {
     let z = &c.zone;
     let model = ZoneModel::new(z);
+    let mut model_free = false;
     if let Some(cl) = model.class {
         st.class(&format!("rule_{}", cl.name()));
         if cl == Class::Overlap {
-            st.exclude(KF_OVERLAP);
-            return Ok(());
+            if focus == Focus::C17 || focus == Focus::C14 {
+                // the buffer-based search must mirror the allocating one (C17), and every produced value must be coherent (C14),
+                // whatever the zone: these two need no model, so the overlapping-rule zones are not excluded for them
+                model_free = true;
+            } else {
+                st.exclude(KF_OVERLAP);
+                return Ok(());
+            }
         }
     }
     let built = build(z)?;
     let zr = built.owned.as_ref();
+    if model_free {
+        let mut stale: Vec<Option<FoundDateTimeKind>> = vec![];
+        let r = match &z.trailer {
+            MTrailer::Alt(r) => r,
+            _ => return Ok(()),
+        };
+        // also the same rule behind a one-transition table (accepted only when the rule prescribes that type there)
+        let with_table = {
+            let t0 = r.s(c.base_year) - 20 * 86400;
+            let mut z2 = z.clone();
+            let at = z2.types.iter().position(|t| *t == r.dst).unwrap_or(0);
+            z2.trans = vec![(t0, at)];
+            z2.to_tz().ok().or_else(|| {
+                let at = z2.types.iter().position(|t| *t == r.std).unwrap_or(0);
+                z2.trans = vec![(t0, at)];
+                z2.to_tz().ok()
+            })
+        };
+        let zones: Vec<TimeZoneRef<'_>> = std::iter::once(zr).chain(with_table.as_ref().map(|t| t.as_ref())).collect();
+        for zr in zones {
+        for (qi, q) in c.queries.iter().enumerate() {
+            // local times around the rule's own instants of the base year and around New Year
+            let l: i128 = match q {
+                Query::Civil(f) => f.civil_secs(),
+                Query::AtEvent { sel, side, delta } => {
+                    let y = c.base_year + (*sel % 3) as i64 - 1;
+                    let t = if sel % 2 == 0 { r.s(y) } else { r.e(y) };
+                    t as i128 + if *side == 0 { r.std.off } else { r.dst.off } as i128 + *delta as i128
+                }
+                Query::NewYear { dy, side, delta } => cal::days_from_civil(c.base_year + *dy as i64, 1, 1) as i128 * 86400 + if *side == 0 { r.std.off } else { r.dst.off } as i128 + *delta as i128,
+            };
+            if l < cal::min_unix() as i128 + 400_000 || l > cal::max_unix() as i128 - 400_000 {
+                continue;
+            }
+            let f = match Fields::from_civil(&cal::civil_from_unix(l), qi as u32) {
+                Some(f) => f,
+                None => continue,
+            };
+            st.eval(1);
+            let desc = || format!("zone {z:?} (overlapping rule) local {f:?}");
+            let list = match DateTime::find(f.y, f.mo, f.d, f.h, f.mi, f.s, f.ns, zr) {
+                Ok(l) => l.into_inner(),
+                Err(_) => continue,
+            };
+            for k in &list {
+                match k {
+                    FoundDateTimeKind::Normal(d) => check_dt(d).map_err(|m| format!("{}: {m}", desc()))?,
+                    FoundDateTimeKind::Skipped { before_transition, after_transition } => {
+                        check_dt(before_transition).map_err(|m| format!("{}: {m}", desc()))?;
+                        check_dt(after_transition).map_err(|m| format!("{}: {m}", desc()))?;
+                    }
+                }
+            }
+            if focus == Focus::C17 {
+                check_find_n(&list, &f, zr, &mut stale, st, &desc)?;
+                st.class("overlapping_rule_zone_buffer_vs_allocating");
+            }
+        }
+        }
+        return Ok(());
+    }
     let tl = match timeline(&model, c.base_year - 3..=c.base_year + 3) {
         Some(t) => t,
         None => {
